@@ -199,6 +199,9 @@ def _validate_one(args):
             res["record"] = r.rejected_at[0] - 1
     elif r.rejected_at:
         res["record"] = r.rejected_at[0]
+    if res.get("ok") and "error" not in res and not os.environ.get("VERIF_KEEP"):
+        # an accepted trace is not needed again: free the disk at once (thorough tiers write tens of GB of traces)
+        shutil.rmtree(d, ignore_errors=True)
     return res
 
 
